@@ -373,6 +373,11 @@ type v6val struct {
 	label  string
 	at     time.Time
 	expiry time.Time
+	// readv: while bound, the value was advertised again to its holder (a SOLICIT from a client the monitor still
+	// counts as bound). If the server had already dropped that binding (it releases everything on any RELEASE), the
+	// Advertise is a fresh pool allocation without a lease: what keeps the value out of circulation afterwards is the
+	// abandoned Advertise, not the expiry of the old binding.
+	readv bool
 }
 
 type v6mon struct {
@@ -461,6 +466,9 @@ func (m *v6mon) onAdvertise(duid, label string, items []v6item, now time.Time) {
 		m.offers[duid][it.key] = now.Add(it.valid)
 		st := m.vals[it.key]
 		if st != nil && st.kind == "bound" && !now.After(st.expiry) {
+			if st.owner == duid {
+				st.readv = true
+			}
 			continue
 		}
 		if st != nil && st.kind == "offered" && !now.After(st.expiry) && st.owner != duid {
@@ -1105,6 +1113,9 @@ func (x *v6run) demand(now time.Time, second bool) {
 		case st.kind == "bound":
 			if second && now.After(st.expiry) {
 				reason = "expired"
+				if st.readv {
+					reason = "abandoned-advertise"
+				}
 			}
 		case st.kind == "offered":
 			if second && now.After(st.expiry) {
